@@ -32,6 +32,7 @@ type opSpec struct {
 	Min         string `json:"minAmount,omitempty"`
 	ToWallet    bool   `json:"toWallet,omitempty"`
 	NewCM       bool   `json:"newManager,omitempty"`
+	Blocks      int    `json:"blocks,omitempty"`      // lag: blocks that reach the manager but not the wallet store
 	ThenRelease bool   `json:"thenRelease,omitempty"` // fund: hand the transaction straight back to ReleaseInputs
 	probe       bool   // a fund of everything spendable issued by the runner after a failed call
 }
@@ -351,7 +352,6 @@ func (e *env) doFund(o opSpec) (failed bool) {
 		}
 		f.toSignV1, err = e.w.FundTransaction(&txn, amount, o.Unc)
 		f.v1txn = txn
-		f.basis = e.cm.Tip()
 		if err == nil {
 			for _, in := range txn.SiacoinInputs[min(o.Existing, len(txn.SiacoinInputs)):] {
 				sel = append(sel, in.ParentID)
@@ -369,6 +369,17 @@ func (e *env) doFund(o opSpec) (failed bool) {
 	}
 	f.hi = e.clock()
 	e.checkWindow(t)
+	storeTip, _ := e.ws.Tip()
+	basisH := storeTip.Height
+	if o.V2 {
+		basisH = f.basis.Height
+		// the inputs and their proofs come from the store's snapshot: that is the basis they are valid for
+		if err == nil && (f.basis != storeTip || f.basis != e.ledgerTip) {
+			e.fail("fund-basis-not-store-tip", "FundV2Transaction returned basis %v, the selected elements and their Merkle proofs belong to the wallet store's tip %v (manager tip %v)", f.basis, storeTip, e.cm.Tip())
+		}
+	} else {
+		f.basis = storeTip
+	}
 	what := fmt.Sprintf("Fund(v2=%v, amount=%s, existing=%d, useUnconfirmed=%v)", o.V2, curStr(amount), o.Existing, o.Unc)
 	e.trace = append(e.trace, fmt.Sprintf("(Fund %s %s %d %s, None)", coqBool(o.V2), zlit(amount), o.Existing, coqBool(o.Unc)))
 	e.stats["fund"]++
@@ -406,7 +417,10 @@ func (e *env) doFund(o opSpec) (failed bool) {
 			delete(e.releasedIDs, id)
 		}
 		e.funded = append(e.funded, f)
-		res = fmt.Sprintf("RFund %s %s", nlist(e.aids(sel)), zlit(change))
+		res = fmt.Sprintf("RFund %s %s %d", nlist(e.aids(sel)), zlit(change), basisH)
+		if e.lagging() {
+			e.stats["fund:ok-while-store-behind"]++
+		}
 		if len(sel) > 0 {
 			e.stats["fund:ok"]++
 		}
@@ -420,7 +434,8 @@ func (e *env) doFund(o opSpec) (failed bool) {
 
 func (e *env) doRelease(o opSpec) {
 	f := e.refTx(o.Ref)
-	if f == nil {
+	if f == nil || f.inPool {
+		// "It should only be called on transactions that are invalid or will never be broadcast"
 		e.stats["skip:release"]++
 		return
 	}
@@ -574,6 +589,9 @@ func (e *env) doBroadcast(o opSpec) {
 	}
 	f.inPool = true
 	e.stats["broadcast"]++
+	if e.lagging() {
+		e.stats["broadcast:while-store-behind"]++
+	}
 	if f.v2 {
 		e.stats["broadcast:v2"]++
 	} else {
@@ -605,6 +623,14 @@ func (e *env) doMine(o opSpec) error {
 	if err != nil {
 		return err
 	}
+	e.tracePoolRemoved(before)
+	e.traceDiffs(diffs)
+	e.stats["mine"]++
+	e.observe("RUnit", t, false)
+	return nil
+}
+
+func (e *env) tracePoolRemoved(before map[types.TransactionID]bool) {
 	after := e.poolIDs()
 	var removed []uint64
 	for id := range before {
@@ -618,6 +644,9 @@ func (e *env) doMine(o opSpec) error {
 	for _, id := range removed {
 		e.trace = append(e.trace, fmt.Sprintf("(PoolRemove %d, None)", id))
 	}
+}
+
+func (e *env) traceDiffs(diffs []blockDiff) {
 	for _, d := range diffs {
 		var cr []string
 		for _, el := range d.created {
@@ -625,12 +654,75 @@ func (e *env) doMine(o opSpec) error {
 		}
 		e.trace = append(e.trace, fmt.Sprintf("(Mine %s [%s], None)", nlist(e.aids(d.spent)), strings.Join(cr, "; ")))
 	}
-	e.stats["mine"]++
+}
+
+// doLag lets k blocks reach the manager but not the wallet store (the window
+// between AddBlocks and UpdateChainState). The wallet sees them only as pool
+// changes; every wallet call in the window must still behave.
+func (e *env) doLag(o opSpec) error {
+	if e.spec.Cfg.Short {
+		// a reservation running out while its transaction is confirmed in a block the
+		// store has not seen frees inputs that are spent on chain: out of the wallet's reach
+		e.stats["skip:lag"]++
+		return nil
+	}
+	// Inside the window the wallet knows the chain through its store only: a
+	// transaction confirmed by a block the store has not applied protects its
+	// inputs by its reservation alone. Only enter the window when every wallet
+	// output spent by the pool is still reserved (not after a restart).
+	spent, _ := e.poolView()
+	for id := range spent {
+		if _, mine := e.ledger[id]; mine && !e.isReserved(id, e.clock()) {
+			e.stats["skip:lag"]++
+			return nil
+		}
+	}
+	t := e.begin()
+	before := e.poolIDs()
+	to := types.VoidAddress
+	if o.ToWallet {
+		to = e.addr
+	}
+	if err := e.mineNoSync(to, max(o.Blocks, 1)); err != nil {
+		return err
+	}
+	e.tracePoolRemoved(before)
+	e.trace = append(e.trace, "(Tick 0, None)")
+	e.stats["lag"]++
+	e.stats[fmt.Sprintf("lag:blocks=%d", max(o.Blocks, 1))]++
+	e.observe("RUnit", t, false)
+	return nil
+}
+
+func (e *env) doSyncIfLagging() error {
+	if e.lagging() {
+		return e.doSync()
+	}
+	return nil
+}
+
+// doSync lets the wallet store catch up (UpdateChainState).
+func (e *env) doSync() error {
+	if !e.lagging() {
+		e.stats["skip:sync"]++
+		return nil
+	}
+	t := e.begin()
+	diffs, err := e.sync()
+	if err != nil {
+		return err
+	}
+	e.traceDiffs(diffs)
+	e.trace = append(e.trace, "(Tick 0, None)")
+	e.stats["sync"]++
 	e.observe("RUnit", t, false)
 	return nil
 }
 
 func (e *env) doRestart(o opSpec) error {
+	if err := e.doSyncIfLagging(); err != nil { // a reservation must not end while the store is behind (see doLag)
+		return err
+	}
 	t := e.begin()
 	before := e.poolIDs()
 	e.w.Close()
@@ -698,6 +790,7 @@ func (e *env) doRestart(o opSpec) error {
 
 // doSleep lets every reservation held run out (short reservation period only).
 func (e *env) doSleep() {
+	e.doSyncIfLagging()
 	if !e.spec.Cfg.Short {
 		e.stats["skip:sleep"]++
 		return
@@ -739,6 +832,9 @@ func (e *env) doRedist(o opSpec) (failed bool) {
 	what := fmt.Sprintf("Redistribute(outputs=%d, amount=%s, feePerByte=%s)", o.Outputs, curStr(amount), curStr(fpb))
 	e.trace = append(e.trace, fmt.Sprintf("(Redistribute %s %s %s [%s], None)", zint(o.Outputs), zlit(amount), zlit(fpb.Mul64(241)), strings.Join(feeOut, "; ")))
 	e.stats["redist"]++
+	if storeTip, _ := e.ws.Tip(); err == nil && len(txns) > 0 && basis != storeTip {
+		e.fail("redistribute-basis-not-store-tip", "Redistribute returned basis %v, the inputs and their Merkle proofs belong to the wallet store's tip %v (manager tip %v)", basis, storeTip, e.cm.Tip())
+	}
 	var res string
 	if err != nil {
 		failed = true
